@@ -54,4 +54,21 @@ def modelPolObs (i : PolRpcInput) : Obs :=
 def followerWritesGen : List (String × Option Int) :=
   (Gen.polShape.keyedWrites.filter (fun w => w.dir == "cmd/ipfs-cluster-follow")).map (fun w => (w.key, some w.value))
 
+def modeKey : Mode → String
+  | .raft => "raft"
+  | .crdt => "crdt"
+
+/-- where the REST API of the daemon listens for libp2p streams (regenerated shape) -/
+def modelExposure (i : DmnInput) : Exposure := daemonExposure Gen.daemonShape i.dir (modeKey i.mode) i.addr
+
+/-- does the swarm peer without credentials get the pinset-mutating route served over the cluster host -/
+def modelServed (i : DmnInput) : Bool := swarmPeerReachesRest (modelExposure i) i.auth
+
+/-- the consensus component the daemon hands to NewCluster -/
+def modelDaemonConsensus (dir : String) (m : Mode) : Option String := daemonConsensus Gen.daemonShape dir (modeKey m)
+
+/-- the two daemons -/
+def serviceDir : String := "cmd/ipfs-cluster-service"
+def followDir : String := "cmd/ipfs-cluster-follow"
+
 end CV.C07
